@@ -61,10 +61,14 @@ type Keys12 struct {
 }
 
 // Client returns the client-write keys, Server the server-write keys.
-func (kb KeyBlock) Client() Keys12 { return Keys12{MAC: kb.ClientMAC, Key: kb.ClientKey, IV: kb.ClientIV} }
+func (kb KeyBlock) Client() Keys12 {
+	return Keys12{MAC: kb.ClientMAC, Key: kb.ClientKey, IV: kb.ClientIV}
+}
 
 // Server returns the server-write keys.
-func (kb KeyBlock) Server() Keys12 { return Keys12{MAC: kb.ServerMAC, Key: kb.ServerKey, IV: kb.ServerIV} }
+func (kb KeyBlock) Server() Keys12 {
+	return Keys12{MAC: kb.ServerMAC, Key: kb.ServerKey, IV: kb.ServerIV}
+}
 
 // Writer returns the write keys of the given side.
 func (kb KeyBlock) Writer(client bool) Keys12 {
